@@ -6,6 +6,7 @@
 import Nuts.Model.Tx
 import NutsProofs.Lemmas.MergeKV
 import NutsProofs.Lemmas.MergeReads
+import NutsProofs.Lemmas.MergeReopen
 namespace NutsProofs.C15
 open Nuts Nuts.Model Nuts.Model.DB
 
@@ -100,7 +101,8 @@ theorem C15_merge_keeps_kv_index (opt0 : Opts) (ops : List Op) (hok : OpsOk (ope
     intro x hx
     apply logOf_recOk ops hrec
     rw [← hlog]; exact List.mem_map.mpr ⟨x, hx, rfl⟩
-  exact merge_spec s now txids (minv_of_logInv s now hinv hpk hL hsz)
+  have hmk : MarkedLog (allRecs s.files) := markedLog_ops ops _ (logInv_init opt0) (packed_init opt0) (markedLog_init opt0) hok
+  exact merge_spec s now txids (minv_of_logInv s now hinv hpk hL hsz hmk)
 
 open NutsProofs.MergeKV in
 /-- … and again: Merge after Merge (the invariant is all the statement needs) -/
@@ -146,9 +148,54 @@ theorem C15_merge_keeps_kv_reads (opt0 : Opts) (ops : List Op) (hok : OpsOk (ope
     intro x hx
     apply logOf_recOk ops hrec
     rw [← hlog]; exact List.mem_map.mpr ⟨x, hx, rfl⟩
-  have hminv := minv_of_logInv s now hinv hpk hL hsz
+  have hmk : MarkedLog (allRecs s.files) := markedLog_ops ops _ (logInv_init opt0) (packed_init opt0) (markedLog_init opt0) hok
+  have hminv := minv_of_logInv s now hinv hpk hL hsz hmk
   exact reads_of_visKV s s' hm (by show (merge s now txids).1.opt.mode = 0; rw [hopt]; exact hm) hvis
     hminv.committedIdx hminv'.committedIdx
+
+open NutsProofs.Reopen NutsProofs.KVRefine NutsProofs.Hints NutsProofs.MergeKV in
+/-- **C15 (Merge, then reopen; key+value mode, every history).** Under the hypotheses of
+`C15_merge_keeps_kv_index`: after a successful Merge at clock value `now`, close and `Open` again in key+value
+mode. `Open` succeeds, and `Get`, `GetAll`, `RangeScan`, and `PrefixScan` / `PrefixSearchScan` without offset
+and limit return at every time `t ≥ now` the values and (key, value) pairs they returned *before the Merge* at
+`t`: deleted, expired and overwritten records are not resurrected by the reopen either (the rebuilt index is the
+old one minus entries that are dead), nothing live is lost. (Paged scans are not covered: the dead entries that
+vanish at the reopen no longer consume offset and limit — finding D-SCAN-DEAD.) -/
+theorem C15_merge_then_reopen_keeps_kv_reads (opt0 : Opts) (ops : List Op) (hok : OpsOk (openDB opt0 []).1 ops)
+    (hrec : OpsRecOk ops)
+    (hsz : ∀ x ∈ allRecs (ops.foldl stepOp (openDB opt0 []).1).files, ¬ x.1.size > (ops.foldl stepOp (openDB opt0 []).1).opt.seg)
+    (hm : (ops.foldl stepOp (openDB opt0 []).1).opt.mode = 0)
+    (now : Nat) (txids : List Nat)
+    (h2 : ¬ (ops.foldl stepOp (openDB opt0 []).1).files.length < 2)
+    (hl : (merge (ops.foldl stepOp (openDB opt0 []).1) now txids).1.activeUnlinked = false)
+    (opt : Opts) (hmo : opt.mode = 0) (t : Nat) (hle : now ≤ t) (ht : t < 2 ^ 64) (b : Bytes) :
+    let s := ops.foldl stepOp (openDB opt0 []).1
+    let s2 := (openDB opt (merge s now txids).1.files).1
+    (openDB opt (merge s now txids).1.files).2 = .ok () ∧
+    (∀ k, (DB.get s2 b k t).map (Option.map (·.value)) = (DB.get s b k t).map (Option.map (·.value))) ∧
+    ((getAll s2 b t).map pairsOf = (getAll s b t).map pairsOf) ∧
+    (∀ st en, (rangeScan s2 b st en t).map pairsOf = (rangeScan s b st en t).map pairsOf) ∧
+    (∀ pre mt, (prefixScan s2 b pre 0 (-1) t mt).map pairsOf = (prefixScan s b pre 0 (-1) t mt).map pairsOf) := by
+  intro s s2
+  have hinv : LogInv s := logInv_ops ops _ (logInv_init opt0) hok
+  have hpk : Packed s := packed_ops ops _ (logInv_init opt0) (packed_init opt0) hok
+  have hlog : (allRecs s.files).map (·.1) = logOf ops := by
+    have h0 : (allRecs (openDB opt0 []).1.files).map (·.1) = [] := by simp [openDB, fileEnsure, allRecs]
+    have := log_of_ops ops _ (logInv_init opt0) hok
+    rw [h0, List.nil_append] at this
+    exact this
+  have hL : ∀ x ∈ allRecs s.files, RecOk x.1 := by
+    intro x hx
+    apply logOf_recOk ops hrec
+    rw [← hlog]; exact List.mem_map.mpr ⟨x, hx, rfl⟩
+  have hmk : MarkedLog (allRecs s.files) := markedLog_ops ops _ (logInv_init opt0) (packed_init opt0) (markedLog_init opt0) hok
+  have hminv := minv_of_logInv s now hinv hpk hL hsz hmk
+  obtain ⟨_, hminv1, hvis, _, hopt⟩ := (merge_spec s now txids hminv).2 h2 hl
+  have hm1 : (merge s now txids).1.opt.mode = 0 := by rw [hopt]; exact hm
+  obtain ⟨a1, a2, a3, a4⟩ := reads_of_vis_minv s (merge s now txids).1 now hminv hminv1 hm hm1 hvis t ht b
+  obtain ⟨hok2, b1, b2, b3, b4⟩ := reads_after_reopen (merge s now txids).1 now hminv1 hm1 opt hmo t hle ht b
+  exact ⟨hok2, fun k => by rw [b1 k, a1 k], by rw [b2, a2], fun st en => by rw [b3 st en, a3 st en],
+    fun pre mt => by rw [b4 pre mt, a4 pre mt]⟩
 
 instance : DecidableEq (Bytes × (Bytes × Nat × Nat × Nat)) := inferInstance
 instance : DecidableEq (List (Bytes × (Bytes × Nat × Nat × Nat))) := inferInstance
